@@ -194,7 +194,7 @@ func (w *World) NameObject(obj any, name string) {
 func newWorld0(t *testing.T, tape *Tape) *World {
 	return &World{
 		objNames: map[any]string{},
-		Barriers: map[string]bool{"executor.afterAdvance": true},
+		Barriers: map[string]bool{"executor.afterAdvance": true, "taskqueue.beforePop": true},
 		MaxIdle:  50 * time.Second,
 		Yields:   map[string]bool{"messagequeue.beforeSendMessage": true},
 		T:        t, Tape: tape,
